@@ -72,6 +72,7 @@ def savedConfig (j : Json) : Except String Json := do
   let fj ← field j "facts"
   let facts : Save.MainFacts :=
     { writesRightDisp := ← field fj "writesRightDisp" >>= boolOfJson, addsMargins := ← field fj "addsMargins" >>= boolOfJson }
+  let runWrites ← boolOfJson (fieldD fj "runWritesIndicator" (Json.bool true))
   let cfg ← field j "cfg" >>= dictOfJson
   let rows ← field j "rows" >>= natOfJson
   let cols ← field j "cols" >>= natOfJson
@@ -80,7 +81,7 @@ def savedConfig (j : Json) : Except String Json := do
   let expected : Json := match Dict.lookup cfg "pipeline" with
     | some (.obj M) => jvalToJson (SaveConfig.expectedMarginsJ rows cols (SaveConfig.stepCfgsOf M))
     | _ => Json.null
-  match SaveConfig.savedConfig facts cfg rows cols rows2 cols2 with
+  match SaveConfig.savedConfig facts runWrites cfg rows cols rows2 cols2 with
   | none => return mkObj [("ok", Json.bool false), ("expected_margins", expected)]
   | some saved =>
     return mkObj [("ok", Json.bool true), ("saved", jvalToJson (.obj saved)), ("expected_margins", expected)]
